@@ -166,6 +166,15 @@ func checkC03(c *Ctx) {
 			}
 			c03Methods(c, mt, v, sh.n, sh.m)
 		}
+		// an application payload handed over in two parts: the ciphertext covers the concatenation
+		{
+			v := frameVariant(mt, 0, true, 3)
+			v.Name += "/two-parts"
+			v.Lens["MACPayload.*.FRMPayload"] = 2
+			v.Dyn["MACPayload.*.FRMPayload[1]"] = ":DataPayload"
+			v.Lens["MACPayload.*.FRMPayload[1].*.Bytes"] = 18
+			c03Methods(c, mt, v, 0, 21)
+		}
 	}
 	flowC03(c)
 	c.Run.Advisory("R4.wiring", "R4.methods")
@@ -197,7 +206,10 @@ func c03Methods(c *Ctx, mt int64, v avariant, n, m int) {
 			phy, dom = T(in)
 			in.SetLive(dom)
 			key = in.Sym("key", in.NamedType("", "AES128Key"), false)
-			plain = sliceVals(deepLeaf(phy, "MACPayload.*.FRMPayload[0].*.Bytes"))
+			// the plaintext is the concatenation of all FRMPayload elements (marshalPayload joins them)
+			for k := 0; k < v.Lens["MACPayload.*.FRMPayload"]; k++ {
+				plain = append(plain, sliceVals(deepLeaf(phy, fmt.Sprintf("MACPayload.*.FRMPayload[%d].*.Bytes", k)))...)
+			}
 			res = in.CallMethod(&absint.Cell{V: phy}, in.NamedType("", "PHYPayload"), "EncryptFRMPayload", key)
 		})
 		if err != nil {
